@@ -1,5 +1,5 @@
 (* Proofs/Reserved.v — lemmas for C12 *)
-From GV Require Import Base.Str Gen.Kw Model.Reserved.
+From GV Require Import Base.Str Gen.Kw Model.Case Model.Reserved.
 
 (* ---- finite facts about the regenerated lists (re-checked by vm_compute whenever Gen/Kw.v changes) ---- *)
 Lemma kwlist_subset_reserved_b : forallb reserved KWLIST = true.
@@ -223,20 +223,60 @@ Proof.
   - exists (n ++ "_"). repeat split; [exact E | apply ends_with_us].
 Qed.
 
+
+
+Lemma ends_us_iff s : ends_with "_" s = true <-> exists a, s = a ++ "_".
+Proof.
+  split.
+  - unfold ends_with, starts_with. intro H.
+    destruct (strip_prefix (srev "_") (srev s)) as [r|] eqn:E; [|discriminate].
+    apply strip_prefix_sound in E. exists (srev r).
+    rewrite <- (srev_involutive s), E, srev_app. reflexivity.
+  - intros [a ->]. apply ends_with_us.
+Qed.
+
+Lemma ins_pass_keeps_us test : forall s p, exists a, ins_pass test p (s ++ "_") = a ++ "_".
+Proof.
+  induction s as [|c s IH]; intro p; simpl.
+  - destruct (test p "_"%char ""); [exists "_" | exists ""]; reflexivity.
+  - destruct (IH (Some c)) as [a Ha]. rewrite Ha.
+    destruct (test p c (s ++ "_")); [exists (String "_"%char (String c a)) | exists (String c a)]; reflexivity.
+Qed.
+
+Lemma snake_keeps_us s : ends_with "_" s = true -> ends_with "_" (snake s) = true.
+Proof.
+  intro H. apply ends_us_iff in H as [a ->]. unfold snake.
+  destruct (ins_pass_keeps_us t1 a None) as [a1 ->].
+  destruct (ins_pass_keeps_us t2 a1 None) as [a2 ->].
+  destruct (ins_pass_keeps_us t3 a2 None) as [a3 ->].
+  destruct (ins_pass_keeps_us t4 a3 None) as [a4 ->].
+  rewrite lower_app. apply ends_us_iff. exists (lower a4). reflexivity.
+Qed.
+
+Lemma trailing_us_valid_module r : ends_with "_" r = true -> invalid_module r = false.
+Proof.
+  intro He. destruct (invalid_module r) eqn:I; [|reflexivity]. exfalso.
+  unfold invalid_module in I. apply mem_str_In in I.
+  pose proof kw_no_trailing_us_b as F. rewrite forallb_forall in F.
+  assert (In r (KWLIST ++ INVALID_MODULE_EXTRA ++ TRANSPORT_UNSAFE)) as J.
+  { apply in_app_or in I as [I|I]; apply in_or_app; [now left | right; apply in_or_app; now left]. }
+  apply F in J. rewrite He in J. discriminate.
+Qed.
+
+(* proto file names: the loop terminates, and neither the chosen name nor the snake-case module the types are written to is a
+   keyword or a name the client classes use (metadata, retry, timeout, request, transport), nor taken already *)
 Lemma sanitize_total name visited :
-  exists r, sanitize_fname name visited = Some r /\ mem_str r visited = false /\ invalid_module r = false.
+  exists r, sanitize_fname name visited = Some r /\ mem_str r visited = false /\
+            invalid_module r = false /\ invalid_module (snake r) = false.
 Proof.
   unfold sanitize_fname. set (n := dots_to_us name).
-  destruct (invalid_module n || mem_str n visited) eqn:E.
+  destruct (module_invalid n || mem_str n visited) eqn:E.
   - destruct (bump_total visited (S (count_ge (S (String.length n)) visited)) n) as (r & Hr & Hv & He); [lia|].
     exists r. repeat split; try assumption.
-    destruct (invalid_module r) eqn:I; [|reflexivity]. exfalso.
-    unfold invalid_module in I. apply mem_str_In in I.
-    pose proof kw_no_trailing_us_b as F. rewrite forallb_forall in F.
-    assert (In r (KWLIST ++ INVALID_MODULE_EXTRA ++ TRANSPORT_UNSAFE)) as J.
-    { apply in_app_or in I as [I|I]; apply in_or_app; [now left | right; apply in_or_app; now left]. }
-    apply F in J. rewrite He in J. discriminate.
-  - apply orb_false_iff in E as [E1 E2]. exists n. repeat split; assumption.
+    + now apply trailing_us_valid_module.
+    + apply trailing_us_valid_module. now apply snake_keeps_us.
+  - apply orb_false_iff in E as [E1 E2]. unfold module_invalid in E1. apply orb_false_iff in E1 as [E1 E1'].
+    exists n. repeat split; assumption.
 Qed.
 
 (* ---- module aliases ---- *)
